@@ -232,7 +232,7 @@ H("negotiate_idle_timeout", ["C08"], "quick", "connection::negotiate_idle",
   ["some timeout", "no timeout"], ["negotiate_max_idle_timeout"], "both values absent or any u16 milliseconds (wider values put 64-bit divisions by 1000 from Duration::from_millis into the formula)")
 
 # ------------------------------------------------------------------ cid_queue.rs (C03.g, C09)
-H("cidq_insert_step", ["C03", "C09"], "quick", "cid_queue::insert_step",
+H("cidq_insert_step", ["C03", "C09", "C04"], "quick", "cid_queue::insert_step",
   [("cursor", "u8"), ("offset", "u32"), ("occ", "[bool; 5]"), ("tag", "[u8; 5]"), ("has_tok", "[bool; 5]"),
    ("sequence", "u32"), ("retire_prior_to", "u32"), ("new_tag", "u8"), ("probe", "u8")], 22,
   ["stored, nothing retired", "Retired", "ExceedsLimit", "retired range reported"],
@@ -671,3 +671,5 @@ H("conn_first_packet_credit_native", ["C07"], "replay-only", "connection::first_
   ["Connection::handle_first_packet"], "native replay body of E2 query e2_first_packet_credit")
 H("endpoint_reset_token_event_native", ["C08", "C09"], "replay-only", "endpoint::reset_token_event_native",
   [("same_addr", "bool")], 4, [], ["Endpoint::handle_event (ResetToken, Drained)"], "native replay body of E2 query e2_endpoint_reset_token_event")
+H("conn_on_packet_authenticated_native", ["C04"], "replay-only", "connection::on_packet_authenticated_native",
+  [("has_pn", "bool")], 4, [], ["Connection::on_packet_authenticated"], "native replay body of E2 query e2_on_packet_authenticated")
